@@ -22,12 +22,13 @@ var c06Specs = []famSpec{
 	{Family: "rc-simple", FreshQ: 6000, FreshT: 400000},
 	{Family: "rc-degenerate", FreshQ: 3000, FreshT: 100000},
 	{Family: "rc-big", FreshQ: 300, FreshT: 10000},
+	{Family: "rc-gap", FreshQ: 3000, FreshT: 100000},
 }
 
 func init() {
 	register(&run.Prop{
 		ID: "C06",
-		Rule: "case = rectangle + closed path set. Paths from the rand-dense / lattice / rand-wide / nested / degenerate generators, rc-big: closed curves of 200..1500 vertices or 20..60 star polygons; rectangle random inside the bounding box, snapped to path vertex coordinates (touching/containing vertices), containing everything, disjoint, or a thin sliver. " +
+		Rule: "case = rectangle + closed path set. Paths from the rand-dense / lattice / rand-wide / nested / degenerate generators, rc-big: closed curves of 200..1500 vertices or 20..60 star polygons, rc-gap: combs with a rectangle whose sides lie on two facing vertical edges of the path; rectangle random inside the bounding box, snapped to path vertex coordinates (touching/containing vertices), containing everything, disjoint, or a thin sliver. " +
 			"Checked: every result vertex within the rectangle (<= 1 outside); total winding of the result equals the input's at integer points inside the rectangle > 2 from its boundary and from every input edge, and is 0 at points > 2 outside; " +
 			"per path: bounds inside -> returned verbatim, bounds disjoint -> nothing; a reused RectClip64 object gives the same result as a fresh one. Non-trivial = some path crosses the rectangle boundary (neither fast path) and >= 1 eligible interior point; distinct by input digest.",
 		Assumptions: []string{"exact winding by 128-bit arithmetic; rectangles are built by the harness so their bounds are known without reading unexported fields"},
@@ -139,6 +140,39 @@ func rcInput(id run.CaseID) (Paths, rectI) {
 				paths = append(paths, gen.StarPoly(r, r.Range(-R, R), r.Range(-R, R), float64(R)*0.05, float64(R)*0.3, 3+r.Intn(12), r.Bool()))
 			}
 		}
+	case "rc-gap":
+		// a comb (or two), and a rectangle whose left and right sides lie ON two facing vertical edges of the path: the
+		// rectangle spans a gap (or a tooth, or both), its corners are on the path, its interior may be wholly outside
+		R := gen.PickOf(r, int64(40), 1000, 1<<20)
+		for k := 0; k < 1+r.Intn(2); k++ {
+			paths = append(paths, gen.Comb(r, r.Range(-R, R), r.Range(-R, R)+int64(k)*3*R, 2+r.Intn(4), max(R/20, 2), max(R/3, 8), r.Bool()))
+		}
+		type vedge struct{ x, y0, y1 int64 }
+		var ves []vedge
+		for _, p := range paths {
+			for i := range p {
+				a, b := p[i], p[(i+1)%len(p)]
+				if a.X == b.X && a.Y != b.Y {
+					ves = append(ves, vedge{a.X, min(a.Y, b.Y), max(a.Y, b.Y)})
+				}
+			}
+		}
+		for try := 0; try < 20 && len(ves) >= 2; try++ {
+			e, f := ves[r.Intn(len(ves))], ves[r.Intn(len(ves))]
+			lo, hi := max(e.y0, f.y0), min(e.y1, f.y1)
+			if e.x == f.x || hi-lo < 2 {
+				continue
+			}
+			q := rectI{L: min(e.x, f.x), R: max(e.x, f.x), T: lo, B: hi}
+			switch r.Intn(3) {
+			case 0: // strictly inside the common extent
+				q.T = r.Range(lo, hi-1)
+				q.B = r.Range(q.T+1, hi)
+			case 1: // from one end of the common extent
+				q.B = r.Range(lo+1, hi)
+			}
+			return paths, q
+		}
 	case "rc-degenerate":
 		a, b := gen.Degenerate(r)
 		paths = append(a, b...)
@@ -155,7 +189,7 @@ func rcInput(id run.CaseID) (Paths, rectI) {
 	}
 	q := pickRect(r, paths, snap)
 	switch id.Family { // fresh families only (the pools are a closed set)
-	case "rc-nested", "rc-simple", "rc-degenerate", "rc-big":
+	case "rc-nested", "rc-simple", "rc-degenerate", "rc-big", "rc-gap":
 		if r.Chance(0.15) { // a rectangle corner, a vertex or an edge/rectangle crossing exactly on the origin
 			dx, dy := anchorShift(r, []Paths{paths, {{{X: q.L, Y: q.T}, {X: q.R, Y: q.T}, {X: q.R, Y: q.B}, {X: q.L, Y: q.B}}}}, nil)
 			paths = gen.Translate(paths, dx, dy)
